@@ -47,7 +47,9 @@ METAMODELS = {
     # an abstract rule mixing a local class with a class of a REFERENCED language (registered as 'c29a' by the harness)
     "referenced-language": "reference c29a as a\nModel: bs+=B; B: 'B' name=ID ('->' t=[Target])? ('~' o=[a.A])?; Target: B | a.A;",
     # grammar files importing each other: every class of every (also indirectly) imported grammar belongs to the metamodel
-    "import-chain": {"import_chain": "import mid\nModel: bs+=B;", "mid": "import leaf\nB: 'b' name=ID c=C other=Abs;", "leaf": "C: 'c' name=ID; Abs: C | D; D: 'd' x=INT;"},
+    # (the root grammar and the indirectly imported one both define a rule Node: two classes, two nodes)
+    "import-chain": {"import_chain": "import mid\nModel: bs+=B ns*=Node;\nNode: 'n' name=ID;", "mid": "import leaf\nB: 'b' name=ID c=C other=Abs;",
+                     "leaf": "C: 'c' name=ID (k=Node)?; Abs: C | D; D: 'd' x=INT;\nNode: 'ln' x=INT;"},
     "import-diamond": {"import_diamond": "import l\nimport r\nModel: ls+=L rs+=R;", "l": "import base\nL: 'l' t=T;", "r": "import base\nR: 'r' t=[T];",
                        "base": "T: 't' name=ID;"},
 }
